@@ -71,6 +71,7 @@ C08Op gen_op(bool thread0, int nobj)
 void do_plan(int tier)
 {
   plan.nobj = 1 + (int)sim_plan(C08_MAXOBJ);
+  sim_set_tso(sim_plan(4) == 0);
   unsigned k = sim_plan(tier ? 7 : 5);
   plan.nthreads = k == 0 ? 0 : (int)k + (k >= 1 ? 1 : 0);  // 0 or 2..
   if (plan.nthreads > C08_MAXTHREADS)
